@@ -18,7 +18,7 @@ FEATURES = [
     "kern_block", "fractional", "quadratic", "cubic", "ttx_data", "vertical",
     "prodnames_off", "meta", "instructions_off", "dottedcircle", "ds_skipexport",
     "openinfo", "background_layer", "glyph_lib", "empty_glyph", "underline_pos", "ds5_vfs",
-    "multi_anchor", "tt_instructions", "colrv1",
+    "multi_anchor", "tt_instructions", "colrv1", "contextual_anchor",
 ]
 
 # name, unicodes, kind
@@ -287,6 +287,16 @@ def gen_family(rng, force=(), forbid=(), n_masters=None, max_glyphs=14, p_sparse
             g["anchors"].append(["exit", 0, rng.choice([0, 120])])
         if role == "composite" and rng.random() < 0.2 and "marks" in on:
             g["anchors"].append(["top", _q(rng, w / 2, spec["frac"]), 800])
+    if "contextual_anchor" in on and "marks" in on:
+        # a contextual mark anchor ('*top'): attaches only after a given glyph
+        bases_ = [n for n, _, r in roster if r == "base" and any(a[0] == "top" for a in glyphs[n]["anchors"])]
+        if len(bases_) >= 2:
+            n0, n1 = bases_[0], bases_[1]
+            g = glyphs[n0]
+            ident = "ctx-" + n0.replace(".", "_")
+            g["anchors"].append(["*top", g["anchors"][0][1] + 15, 760, ident])
+            g["lib"].setdefault("public.objectLibs", {})[ident] = {
+                "GPOS_Context": rng.choice(["%s *" % n1, "* %s" % n1])}
     if "multi_anchor" in on and "marks" in on:
         # several anchor classes; mark glyphs that belong to more than one mark class
         # (makes the mark writer's class grouping / lookup splitting non-trivial)
@@ -805,11 +815,12 @@ def _perturb_glyph(rng, g, k, spec, keep_components=False):
         if not frac:
             ntr[4], ntr[5] = int(round(ntr[4])), int(round(ntr[5]))
         out["components"].append([base, ntr] + list(comp[2:]))
-    for name, x, y in g["anchors"]:
+    for a in g["anchors"]:
+        name, x, y = a[0], a[1], a[2]
         nx, ny = x + rng.choice([0, 10, -5]) * k, y + rng.choice([0, 20]) * k
         if not frac:
             nx, ny = int(round(nx)), int(round(ny))
-        out["anchors"].append([name, nx, ny])
+        out["anchors"].append([name, nx, ny] + list(a[3:]))
     return out
 
 
